@@ -99,7 +99,7 @@ SrvArrive ==
                    rlast, wlast, rdone, wdone, ncancel, pulls>>
 
 SrvFail ==         \* the receive() the pump awaits raises: the pump task ends without queueing anything
-    /\ Faults /\ ppc = "awaitRecv" /\ pull = "pump" /\ ~pcancel /\ wpc = "idle"
+    /\ Faults /\ ppc = "awaitRecv" /\ pull = "pump" /\ ~pcancel /\ wpc \in {"idle", "sending"}
     /\ ppc' = "failed" /\ pull' = "none"
     /\ UNCHANGED <<mq, all, srv, avail, pcancel, inhand, queue, disc, popW, putW, rpc, wpc, wstate, taken, via,
                    rlast, wlast, rdone, wdone, ncancel, pulls>>
